@@ -74,6 +74,9 @@ type Schedule struct {
 type ConfigFile struct {
 	Mode    string `json:"mode"` // file | missing | dir | dangling | loop | notdir | toolong | procmem
 	Content string `json:"content,omitempty"`
+	// Via: how a readable file is named (mode "file"): "" plain relative name, absolute, subdir, dotdot,
+	// symlink, symlink-chain, symlink-dir, hardlink, spaces, noext, hidden, readonly
+	Via string `json:"via,omitempty"`
 }
 
 // RunSpec is one fully explicit child-process run.
@@ -93,6 +96,9 @@ type Expect struct {
 	Kind     string   `json:"kind"`
 	Roots    []string `json:"roots,omitempty"`    // all selected roots
 	Affected []string `json:"affected,omitempty"` // roots that must be absent (atomic)
+	// Restored: roots that must be generated whole but whose text is not compared with the twin's (the
+	// twin's message is field-less, the run's message has one excluded field: different descriptors)
+	Restored []string `json:"restored,omitempty"`
 }
 
 // Case is reference run + run + expectation; serialised, it is the replay file.
@@ -170,8 +176,54 @@ func (e *Engine) Exec(prog *spec.Program, rs *RunSpec) Outcome {
 		switch rs.Config.Mode {
 		case "file":
 			cfgParam = "config.yaml"
-			if err := os.WriteFile(filepath.Join(dir, cfgParam), []byte(rs.Config.Content), 0o644); err != nil {
+			real := cfgParam
+			mode := os.FileMode(0o644)
+			switch rs.Config.Via {
+			case "":
+			case "absolute":
+				cfgParam = filepath.Join(dir, "config.yaml")
+			case "subdir":
+				os.MkdirAll(filepath.Join(dir, "conf.d", "tf"), 0o755)
+				cfgParam = "conf.d/tf/config.yaml"
+				real = cfgParam
+			case "dotdot":
+				os.MkdirAll(filepath.Join(dir, "sub"), 0o755)
+				cfgParam = "sub/../config.yaml"
+			case "symlink":
+				real = "real-config.yaml"
+				os.Symlink(real, filepath.Join(dir, cfgParam))
+			case "symlink-chain":
+				real = "real-config.yaml"
+				os.Symlink(real, filepath.Join(dir, "link1.yaml"))
+				os.Symlink(filepath.Join(dir, "link1.yaml"), filepath.Join(dir, cfgParam))
+			case "symlink-dir":
+				os.MkdirAll(filepath.Join(dir, "realdir"), 0o755)
+				os.Symlink("realdir", filepath.Join(dir, "linkdir"))
+				real = "realdir/config.yaml"
+				cfgParam = "linkdir/config.yaml"
+			case "hardlink":
+				real = "real-config.yaml"
+			case "spaces":
+				cfgParam = "my config (v2) \u00fc.yaml"
+				real = cfgParam
+			case "noext":
+				cfgParam = "tfconfig"
+				real = cfgParam
+			case "hidden":
+				cfgParam = ".config.yml"
+				real = cfgParam
+			case "readonly":
+				mode = 0o400
+			default:
+				return Outcome{Err: fmt.Errorf("unknown config path shape %q", rs.Config.Via)}
+			}
+			if err := os.WriteFile(filepath.Join(dir, real), []byte(rs.Config.Content), mode); err != nil {
 				return Outcome{Err: err}
+			}
+			if rs.Config.Via == "hardlink" {
+				if err := os.Link(filepath.Join(dir, real), filepath.Join(dir, cfgParam)); err != nil {
+					return Outcome{Err: err}
+				}
 			}
 		case "missing":
 			cfgParam = "no-such-config.yaml"
@@ -512,7 +564,11 @@ func (e *Engine) evalAtomic(c *Case, ref, run Outcome) []string {
 				fails = append(fails, fmt.Sprintf("type %s is not affected but was dropped", root))
 			}
 		}
-		if present == 3 && !affected[root] {
+		restored := false
+		for _, r := range c.Expect.Restored {
+			restored = restored || r == root
+		}
+		if present == 3 && !affected[root] && !restored {
 			for _, fn := range rootFuncs(root) {
 				if r, ok := rf[fn]; ok && r != xf[fn] {
 					fails = append(fails, fmt.Sprintf("function %s of unaffected type changed: %s", fn, firstDiff([]byte(r), []byte(xf[fn]))))
